@@ -163,7 +163,9 @@ def output_only_partition_level(case):
         # every level of R except the top one needs the step of the level below the one above... any non-top level or
         # the top level's step is emitted from names; output-only iteration happens when some other looped symbol of
         # the equation comes after the level
-        for lvl in gen.levels_of(R, n):
+        # (upper levels are always obtained by projecting the follower's upper level; only the bottom level needs every
+        #  other symbol of the equation to be bound already)
+        for lvl in [R + "0"]:
             if lvl not in lo:
                 continue
             p = lo.index(lvl)
@@ -199,17 +201,19 @@ def partition_beyond_output_extent(case):
     """
     if not case.get("part_levels"):
         return False
-    R, Wn = case["part_rank"], case["follower"]
-    Q, W = case["extents"][R], case["extents"][Wn]
-    a, pre = 1, 0
-    for trank, terms in case["affine"]:
-        if trank == Wn:
-            a = dict((v, c) for c, v in terms)[R]
-            # a pre-halo (negative coefficients) makes partitions exist up to max coordinate + pre-halo
-            pre = sum(-c * (case["extents"][v] - 1) for c, v in terms if c < 0)
-    for step in _steps(case):
-        if step * ((W - 1 + pre) // (a * step)) > Q - (1 if pre else 0):
-            return True
+    R = case["part_rank"]
+    Q = case["extents"][R]
+    for Wn in (case.get("followers") or [case["follower"]]):
+        W = case["extents"][Wn]
+        a, pre = 1, 0
+        for trank, terms in case["affine"]:
+            if trank == Wn:
+                a = dict((v, c) for c, v in terms)[R]
+                # a pre-halo (negative coefficients) makes partitions exist up to max coordinate + pre-halo
+                pre = sum(-c * (case["extents"][v] - 1) for c, v in terms if c < 0)
+        for step in _steps(case):
+            if step * ((W - 1 + pre) // (a * step)) > Q - (1 if pre else 0):
+                return True
     return False
 
 
@@ -234,7 +238,7 @@ def multi_level_partition_with_halo(case):
     if case.get("part_levels", 0) < 2:
         return False
     for trank, terms in case["affine"]:
-        if trank == case["follower"] and len(terms) >= 2:
+        if trank in (case.get("followers") or [case["follower"]]) and len(terms) >= 2:
             return True
     return False
 
